@@ -52,6 +52,24 @@ impl C07 {
       let l = s.get_lunar_day();
       (l.get_sixty_cycle().get_index() as i64, l.get_week().get_index() as i64, l.get_day() as i64, l.get_lunar_month().get_day_count() as i64)
     });
+    // the sexagenary-day objects a sexagenary month lists carry the same pillar (sampled: the list costs 30 conversions)
+    if with_scd && (jdn % 16 == 0 || d == 1) && (i < 60 || (1729820..=1729900).contains(&jdn)) {
+      out.skip("sexagenary_month_starts_before_0001-01-01_or_overlaps_the_AD_24_hole");
+    } else if with_scd && (jdn % 16 == 0 || d == 1) {
+      out.class("pillar_of_the_item_listed_by_its_sexagenary_month");
+      match guard(|| {
+        let mo = s.get_sixty_cycle_day().get_sixty_cycle_month();
+        mo.get_days().iter().find(|x| ymd(&x.get_solar_day()) == (y, m, d)).map(|x| x.get_sixty_cycle().get_index() as i64)
+      }) {
+        Ok(Some(p)) if p == ep => {}
+        Ok(g) => {
+          out.fail(env, viol(sub, "pillar_of_listed_sexagenary_day", case, &k, format!("{} as listed by its sexagenary month's get_days()", c.fmt(i)), pillar_name(ep), match g { Some(p) => pillar_name(p), None => "not listed".into() }));
+        }
+        Err(e) => {
+          out.fail(env, viol(sub, "listed_sexagenary_day_panics", case, &k, c.fmt(i), pillar_name(ep), e));
+        }
+      }
+    }
     let (lp, lw, ld, dc) = match r {
       Ok(x) => x,
       Err(e) => {
